@@ -6,6 +6,103 @@
 #include <stdlib.h>
 #include <string.h>
 #include <stdio.h>
+#ifdef NANOLANG_VERIF
+#include <unistd.h>
+#endif
+
+#ifdef NANOLANG_VERIF
+/* ========================================================================
+ * Verification hook H2: registry of live heap objects (see /verif/DESIGN.md
+ * section 4).  Every allocation site registers the object, every free site
+ * unregisters it; a free of an unregistered object is reported at once.
+ * ======================================================================== */
+static void **verif_tab = NULL;
+static size_t verif_cap = 0, verif_used = 0, verif_tomb = 0;
+static int verif_reports = 0;
+#define VERIF_TOMB ((void *)1)
+
+/* The registry is process-global and not thread-safe: it is active only when
+ * NANOLANG_VERIF_AUDIT is set (never in the daemon). */
+static int verif_enabled = -1;
+bool vm_verif_enabled(void) {
+    if (verif_enabled < 0) verif_enabled = getenv("NANOLANG_VERIF_AUDIT") ? 1 : 0;
+    return verif_enabled == 1;
+}
+
+static int verif_fd(void) {
+    const char *e = getenv("NANOLANG_VERIF_FD");
+    return e ? atoi(e) : 2;
+}
+
+void vm_verif_report(const char *msg, const void *p) {
+    if (verif_reports++ > 20) return;
+    char buf[256];
+    int n = snprintf(buf, sizeof(buf), "VERIF-HEAP: %s %p\n", msg, p);
+    if (n > 0) { ssize_t w = write(verif_fd(), buf, (size_t)n); (void)w; }
+}
+
+static size_t verif_slot(void *p, size_t cap) {
+    return (size_t)(((uintptr_t)p >> 4) * 11400714819323198485ull) & (cap - 1);
+}
+
+static void verif_grow(void) {
+    size_t ncap = verif_cap ? verif_cap * 2 : 1024;
+    void **nt = calloc(ncap, sizeof(void *));
+    if (!nt) return;
+    for (size_t i = 0; i < verif_cap; i++) {
+        void *q = verif_tab[i];
+        if (q && q != VERIF_TOMB) {
+            size_t k = verif_slot(q, ncap);
+            while (nt[k]) k = (k + 1) & (ncap - 1);
+            nt[k] = q;
+        }
+    }
+    free(verif_tab);
+    verif_tab = nt;
+    verif_cap = ncap;
+    verif_tomb = 0;
+}
+
+bool vm_verif_is_live(const void *p) {
+    if (!verif_cap || !p) return false;
+    size_t k = verif_slot((void *)p, verif_cap);
+    while (verif_tab[k]) {
+        if (verif_tab[k] == p) return true;
+        k = (k + 1) & (verif_cap - 1);
+    }
+    return false;
+}
+
+void vm_verif_register(void *p) {
+    if (!p || !vm_verif_enabled()) return;
+    if ((verif_used + verif_tomb + 1) * 2 > verif_cap) verif_grow();
+    if (!verif_cap) return;
+    if (vm_verif_is_live(p)) { vm_verif_report("object registered twice", p); return; }
+    size_t k = verif_slot(p, verif_cap);
+    while (verif_tab[k] && verif_tab[k] != VERIF_TOMB) k = (k + 1) & (verif_cap - 1);
+    if (verif_tab[k] == VERIF_TOMB) verif_tomb--;
+    verif_tab[k] = p;
+    verif_used++;
+}
+
+void vm_verif_unregister(void *p) {
+    if (!p || !vm_verif_enabled()) return;
+    if (!verif_cap) { vm_verif_report("free of an object that is not live (double free?)", p); return; }
+    size_t k = verif_slot(p, verif_cap);
+    while (verif_tab[k]) {
+        if (verif_tab[k] == p) { verif_tab[k] = VERIF_TOMB; verif_used--; verif_tomb++; return; }
+        k = (k + 1) & (verif_cap - 1);
+    }
+    vm_verif_report("free of an object that is not live (double free?)", p);
+}
+
+size_t vm_verif_live_count(void) { return verif_used; }
+#define VERIF_REG(p)   vm_verif_register((void *)(p))
+#define VERIF_UNREG(p) vm_verif_unregister((void *)(p))
+#else
+#define VERIF_REG(p)   ((void)0)
+#define VERIF_UNREG(p) ((void)0)
+#endif
 
 /* ========================================================================
  * Heap Init / Destroy
@@ -22,6 +119,7 @@ void vm_heap_destroy(VmHeap *heap) {
     for (uint32_t i = 0; i < heap->intern_count; i++) {
         if (heap->intern_table[i]) {
             /* Force free regardless of ref_count */
+            VERIF_UNREG(heap->intern_table[i]);
             free(heap->intern_table[i]);
         }
     }
@@ -76,6 +174,7 @@ void vm_release(VmHeap *heap, NanoValue v) {
         case TAG_STRING: {
             VmString *s = v.as.string;
             heap->stats.freed += sizeof(VmString) + s->length + 1;
+            VERIF_UNREG(s);
             heap->stats.num_objects--;
             /* Remove from intern table if present */
             for (uint32_t i = 0; i < heap->intern_count; i++) {
@@ -118,6 +217,7 @@ static void release_array(VmHeap *heap, VmArray *a) {
         vm_release(heap, a->elements[i]);
     }
     heap->stats.freed += sizeof(VmArray) + a->capacity * sizeof(NanoValue);
+    VERIF_UNREG(a);
     heap->stats.num_objects--;
     free(a->elements);
     free(a);
@@ -137,6 +237,7 @@ static void release_struct(VmHeap *heap, VmStruct *s) {
         free(s->field_names);
     }
     heap->stats.freed += sizeof(VmStruct) + s->field_count * sizeof(NanoValue);
+    VERIF_UNREG(s);
     heap->stats.num_objects--;
     free(s->fields);
     free(s);
@@ -147,6 +248,7 @@ static void release_union(VmHeap *heap, VmUnion *u) {
         vm_release(heap, u->fields[i]);
     }
     heap->stats.freed += sizeof(VmUnion) + u->field_count * sizeof(NanoValue);
+    VERIF_UNREG(u);
     heap->stats.num_objects--;
     free(u->fields);
     free(u);
@@ -158,6 +260,7 @@ static void release_tuple(VmHeap *heap, VmTuple *t) {
     }
     size_t sz = sizeof(VmTuple) + t->count * sizeof(NanoValue);
     heap->stats.freed += sz;
+    VERIF_UNREG(t);
     heap->stats.num_objects--;
     free(t);
 }
@@ -168,6 +271,7 @@ static void release_closure(VmHeap *heap, VmClosure *c) {
     }
     size_t sz = sizeof(VmClosure) + c->capture_count * sizeof(NanoValue);
     heap->stats.freed += sz;
+    VERIF_UNREG(c);
     heap->stats.num_objects--;
     free(c);
 }
@@ -184,6 +288,7 @@ static void release_hashmap(VmHeap *heap, VmHashMap *m) {
         }
     }
     heap->stats.freed += sizeof(VmHashMap) + m->bucket_count * sizeof(VmHMEntry *);
+    VERIF_UNREG(m);
     heap->stats.num_objects--;
     free(m->buckets);
     free(m);
@@ -219,6 +324,7 @@ VmString *vm_string_new(VmHeap *heap, const char *data, uint32_t length) {
 
     heap->stats.allocated += sz;
     heap->stats.num_objects++;
+    VERIF_REG(s);
 
     /* Add to intern table */
     if (heap->intern_count >= heap->intern_capacity) {
@@ -322,6 +428,7 @@ VmArray *vm_array_new(VmHeap *heap, uint8_t elem_type, uint32_t initial_capacity
     a->elements = calloc(initial_capacity, sizeof(NanoValue));
     heap->stats.allocated += sizeof(VmArray) + initial_capacity * sizeof(NanoValue);
     heap->stats.num_objects++;
+    VERIF_REG(a);
     return a;
 }
 
@@ -397,6 +504,7 @@ VmStruct *vm_struct_new(VmHeap *heap, uint32_t def_idx, uint32_t field_count) {
     s->fields = calloc(field_count, sizeof(NanoValue));
     heap->stats.allocated += sizeof(VmStruct) + field_count * sizeof(NanoValue);
     heap->stats.num_objects++;
+    VERIF_REG(s);
     return s;
 }
 
@@ -415,6 +523,7 @@ VmUnion *vm_union_new(VmHeap *heap, uint32_t def_idx, uint16_t variant, uint16_t
     u->fields = calloc(field_count, sizeof(NanoValue));
     heap->stats.allocated += sizeof(VmUnion) + field_count * sizeof(NanoValue);
     heap->stats.num_objects++;
+    VERIF_REG(u);
     return u;
 }
 
@@ -431,6 +540,7 @@ VmTuple *vm_tuple_new(VmHeap *heap, uint32_t count) {
     t->count = count;
     heap->stats.allocated += sz;
     heap->stats.num_objects++;
+    VERIF_REG(t);
     return t;
 }
 
@@ -448,6 +558,7 @@ VmClosure *vm_closure_new(VmHeap *heap, uint32_t fn_idx, uint16_t capture_count)
     c->capture_count = capture_count;
     heap->stats.allocated += sz;
     heap->stats.num_objects++;
+    VERIF_REG(c);
     return c;
 }
 
@@ -480,6 +591,7 @@ VmHashMap *vm_hashmap_new(VmHeap *heap, uint8_t key_type, uint8_t val_type) {
     m->buckets = calloc(HM_INITIAL_BUCKETS, sizeof(VmHMEntry *));
     heap->stats.allocated += sizeof(VmHashMap) + HM_INITIAL_BUCKETS * sizeof(VmHMEntry *);
     heap->stats.num_objects++;
+    VERIF_REG(m);
     return m;
 }
 
